@@ -20,7 +20,9 @@ RULE = (
     "case = one production table (60..200 days; stepwise / noisy frac-face pressure below p_initial; "
     "zero-rate days; missing pressures) generated from known (tau, M, p_initial) on a shipped gas "
     "table, fitted by the real fit_production_pressure with a filter setting, smoothing window "
-    "(None, 1, 3..9) and iteration budget 3..40. Non-trivial = the objective spy recorded >= 3 "
+    "(None, 1, 3..9) and iteration budget 3..40; row labels default / repeated / reversed; first guess "
+    "above or below the highest frac-face pressure; a refit from the returned Parameters; the "
+    "objective also evaluated with a second fluid table at the same parameters. Non-trivial = the objective spy recorded >= 3 "
     "evaluations and all were recomputed; distinct = descriptor hash."
 )
 MIN_NONTRIVIAL = {"quick": 5, "thorough": 250}
